@@ -231,7 +231,7 @@ where
     fn on_connection_handler_event(
         &mut self,
         _peer_id: PeerId,
-        _connection_id: ConnectionId,
+        connection_id: ConnectionId,
         event: THandlerOutEvent<Self>,
     ) {
         match event {
@@ -249,7 +249,8 @@ where
                 self.server.new_blocks_available(blocks);
             }
             ToBehaviourEvent::SendingStateChanged(peer_id, state) => {
-                self.client.sending_state_changed(peer_id, state);
+                self.client
+                    .sending_state_changed(peer_id, connection_id, state);
             }
             ToBehaviourEvent::ClientClosingConnection(peer_id, connection_id) => {
                 self.client.on_connection_closed(peer_id, connection_id);
